@@ -134,9 +134,17 @@ def find_chains(project, func):
         if not tail or not isinstance(tail[-1], ast.Raise) or len(tail) != 1:
             continue
         tests = _prefix_arms(node) + tests
-        ch = _build_chain(project, func, module, fcfg, node, tests, tail)
-        if ch is not None:
-            out.append(ch)
+        inst = _instantiate(project, func, tests)
+        if inst is None:
+            ch = _build_chain(project, func, module, fcfg, node, tests, tail)
+            if ch is not None:
+                out.append(ch)
+        else:
+            # a dispatch whose class is a parameter (`isinstance(expr, nary_class)`): one chain per class it is called with
+            for tests_i in inst:
+                ch = _build_chain(project, func, module, fcfg, node, tests_i, tail)
+                if ch is not None:
+                    out.append(ch)
     # the same dispatch driven by a table of (class, handler) rows
     for blk in _blocks(func.node):
         for i, st in enumerate(blk):
@@ -169,6 +177,111 @@ def find_chains(project, func):
                 i = max(j, i + 1)
     return out
 
+
+
+def _instantiate(project, func, tests):
+    """tests with the class-valued parameters of `func` replaced by the classes it is called with (one list per distinct
+    binding); None when no test uses a parameter as a class"""
+    from .cfg import _clone, _set_parents
+
+    if not isinstance(func.node, (ast.FunctionDef, ast.AsyncFunctionDef)):
+        return None
+    params = func.params
+    used = set()
+    for t in tests:
+        for x in ast.walk(t):
+            if isinstance(x, ast.Call) and isinstance(x.func, ast.Name) and x.func.id == "isinstance" and len(x.args) == 2:
+                used |= {y.id for y in ast.walk(x.args[1]) if isinstance(y, ast.Name) and y.id in params}
+    if not used:
+        return None
+    # call sites: everywhere in the module (the function calls itself with the parameter unchanged: skipped)
+    bindings = []
+    for c in ast.walk(func.module.tree):
+        if isinstance(c, ast.Call) and isinstance(c.func, ast.Name) and c.func.id == func.name and not any(isinstance(a, ast.Starred) for a in c.args):
+            b = {}
+            for q in used:
+                i = params.index(q)
+                a = c.args[i] if i < len(c.args) else next((k.value for k in c.keywords if k.arg == q), None)
+                if a is None:
+                    b = None
+                    break
+                if isinstance(a, ast.Name) and a.id == q:
+                    b = None  # recursive call handing the parameter on
+                    break
+                r = project.resolve_expr(func.module, a, getattr(c, "_parent", None) and enclosing(c, (ast.FunctionDef, ast.AsyncFunctionDef)))
+                if not (r and r[0] == "class"):
+                    return None
+                b[q] = (a, r[1])
+            if b:
+                key = tuple(sorted((q, v[1].qualname) for q, v in b.items()))
+                if key not in [k for k, _ in bindings]:
+                    bindings.append((key, b))
+    if not bindings:
+        return None
+    out = []
+    for _, b in bindings:
+
+        class Sub(ast.NodeTransformer):
+            def visit_Name(self, n):
+                if isinstance(n.ctx, ast.Load) and n.id in b:
+                    return ast.copy_location(_clone(b[n.id][0]), n)
+                return n
+
+            def visit_Compare(self, n):
+                self.generic_visit(n)
+                # `nary_class is Op` is decided once the parameter is known
+                if len(n.ops) == 1 and isinstance(n.ops[0], (ast.Is, ast.IsNot, ast.Eq, ast.NotEq)):
+                    ra = project.resolve_expr(func.module, n.left, func.node)
+                    rb = project.resolve_expr(func.module, n.comparators[0], func.node)
+                    if ra and rb and ra[0] == "class" and rb[0] == "class":
+                        same = ra[1] is rb[1]
+                        val = same if isinstance(n.ops[0], (ast.Is, ast.Eq)) else not same
+                        return ast.copy_location(ast.Constant(value=val), n)
+                return n
+
+            def visit_BoolOp(self, n):
+                self.generic_visit(n)
+                vals = []
+                for v in n.values:
+                    if isinstance(v, ast.Constant) and isinstance(v.value, bool):
+                        if isinstance(n.op, ast.And) and v.value is False:
+                            return ast.copy_location(ast.Constant(value=False), n)
+                        if isinstance(n.op, ast.Or) and v.value is True:
+                            return ast.copy_location(ast.Constant(value=True), n)
+                        continue
+                    vals.append(v)
+                if not vals:
+                    return ast.copy_location(ast.Constant(value=isinstance(n.op, ast.And)), n)
+                if len(vals) == 1:
+                    return vals[0]
+                # isinstance(x, A) or isinstance(x, B)  ->  isinstance(x, (A, B))
+                isi = lambda v: isinstance(v, ast.Call) and isinstance(v.func, ast.Name) and v.func.id == "isinstance" and len(v.args) == 2  # noqa: E731
+                if isinstance(n.op, ast.Or) and all(isi(v) for v in vals) and len({ast.dump(v.args[0]) for v in vals}) == 1:
+                    classes = []
+                    for v in vals:
+                        st = [v.args[1]]
+                        while st:
+                            c_ = st.pop()
+                            if isinstance(c_, ast.Tuple):
+                                st += list(reversed(c_.elts))
+                            elif isinstance(c_, ast.BinOp) and isinstance(c_.op, ast.BitOr):
+                                st += [c_.right, c_.left]
+                            else:
+                                classes.append(c_)
+                    return ast.copy_location(ast.Call(func=ast.Name(id="isinstance", ctx=ast.Load()), args=[vals[0].args[0], ast.Tuple(elts=classes, ctx=ast.Load())], keywords=[]), n)
+                n.values = vals
+                return n
+
+        ts = []
+        for t in tests:
+            t2 = Sub().visit(_clone(t))
+            ast.fix_missing_locations(t2)
+            _set_parents(t2)
+            t2._parent = getattr(t, "_parent", None)
+            t2._owner_test = t
+            ts.append(t2)
+        out.append(ts)
+    return out
 
 
 def _prefix_arms(head):
@@ -268,7 +381,7 @@ def _build_chain(project, func, module, fcfg, node, tests, tail):
             arm.opaque = True
             arm.subject = None
         owner = getattr(arm.test, "_parent", None)
-        if isinstance(owner, ast.If) and owner.test is arm.test:
+        if isinstance(owner, ast.If) and (owner.test is arm.test or owner.test is getattr(arm.test, "_owner_test", None)):
             arm.body, arm.lineno = owner.body, owner.lineno
         arms.append(arm)
     if not subjects:
@@ -397,6 +510,8 @@ def class_domain(project, chain):
         return None, [], tested, []
     root = roots.pop()
     domain = project.subclasses(root, strict=True)
+    # intermediate base classes that are never constructed have no instances of their own: not part of the domain
+    domain = [c for c in domain if not (project.subclasses(c, strict=True) and c.name not in _constructed_names(project))]
     if root in tested:
         return root, domain, domain, []
     covered = [c for c in domain if any(t in project.mro(c) for t in tested)]
